@@ -3,6 +3,9 @@ import Aurora.Model.Traversal
 /-! Driver for C09: the traversal model runs over the chunk store and manifest node records the
     harness passes as annotations (ground truth read from the Put log on the Go side):
     `ref:<hex>`  `c:<addr>:<span>:<len>[:<payload>]`  `n:<ref>:<type>:<entry>:<prefix~type~ref;…|->`.
+    `trie <id> <enc> <nfull> <tail> <seed>` is a manifest with one entry whose file is a large tree built
+    by the real hashtrie writer from repeated leaf references (carried-up lone chunk shapes at the real
+    constants); it enters the model exactly like a `dir`.
     The model recomputes every traversal from these stored chunks (span arithmetic of
     `subtrieSection`, recursion through intermediate chunks, manifest walk order). -/
 namespace Driver.C09
@@ -140,6 +143,16 @@ def step (st : St) (line : List String) : St × String :=
   | ["dir", id, enc, root, spec] =>
     if (enc ≠ "0" && enc ≠ "1") || (root ≠ "0" && root ≠ "1") || !validDirSpec spec then (st, "bad-op")
     else create st id annot true
+  | ["trie", id, enc, nfull, tail, seed] =>
+    -- synthetic large tree (real hashtrie writer fed with repeated leaf references) published as the only
+    -- entry of a manifest: the model sees it, like a `dir`, only through the stored chunks / node records
+    let digits (t : String) : Bool := !t.isEmpty && t.toList.all Char.isDigit
+    match nfull.toNat?, tail.toNat?, seed.toNat? with
+    | some nf, some tl, some sd =>
+      if (enc ≠ "0" && enc ≠ "1") || !digits nfull || !digits tail || !digits seed
+          || nf > 40000 || tl > C || (nf = 0 && tl = 0) || sd ≥ 4294967296 then (st, "bad-op")
+      else create st id annot true
+    | _, _, _ => (st, "bad-op")
   | ["travref", h] =>
     match Driver.hexToBytes h with
     | none => (st, "bad-op")
